@@ -27,6 +27,7 @@ CONSTS = {"np.pi": math.pi, "math.pi": math.pi, "np.newaxis": NONE}
 CM_CLASSES = {"File", "H5File", "contextmanager_lib"}
 
 # uninterpreted real functions (sound abstraction: nothing is known about them beyond functionality)
+HINT = z3.Function("hint", z3.IntSort(), z3.BoolSort())  # hint(x) is True; it only seeds quantifier instantiation
 _UPOW = z3.Function("upow", z3.RealSort(), z3.RealSort(), z3.RealSort())
 _UROUND = z3.Function("uround", z3.RealSort(), z3.IntSort(), z3.RealSort())
 
@@ -674,6 +675,12 @@ def b_default_rng(I, st, args, kw, node):
     return o
 
 
+def _hint(st, x):
+    t = HINT(to_z3(x))
+    st.fact(t)   # hint(x) is true by definition
+    return t
+
+
 def _z(x):
     """to_z3 for spec-function arguments (optional values are unwrapped: specs guard them with `is not None`)."""
     return to_z3(x.val if isinstance(x, Opt) else x)
@@ -689,6 +696,8 @@ BUILTIN_FUNCS = {
     "__rng_int": lambda I, st, a, k, n: _RNG_INT(*[_z(x) for x in a]),
     "__rng_real": lambda I, st, a, k, n: _RNG_REAL(_z(a[0]), _z(a[1])),
     "default_rng": b_default_rng,
+    "hint": lambda I, st, a, k, n: _hint(st, a[0]),
+    "np_round": lambda I, st, a, k, n: _UROUND(to_real(a[0]), _z(a[1])),
     "len": b_len, "range": b_range, "enumerate": b_enumerate, "zip": b_zip,
     "max": b_max, "min": lambda I, st, a, k, n: b_max(I, st, a, k, n, is_max=False),
     "abs": b_abs, "int": b_int, "float": b_float, "bool": b_bool, "list": b_list, "tuple": b_tuple, "pow": b_pow,
@@ -861,6 +870,9 @@ def np_argsort(I, st, args, kw, node):
     st.fact(z3.ForAll([i], z3.Implies(z3.And(i >= 0, i < n), z3.And(q(i) >= 0, q(i) < n, p(q(i)) == i))))
     x, y = num_pair(to_z3(a.elem(p(i))), to_z3(a.elem(p(j))))
     st.fact(z3.ForAll([i, j], z3.Implies(z3.And(i >= 0, i <= j, j < n), x <= y)))
+    # surjectivity in existential form (helps instantiation): every position is hit
+    st.fact(z3.ForAll([j], z3.Implies(z3.And(j >= 0, j < n), z3.Exists([i], z3.And(i >= 0, i < n, p(i) == j))),
+                      patterns=[HINT(j)]))
     return st.alloc(Arr((a.shape[0],), lambda t: p(to_z3(t)), kind="ndarray", etype="int"), "arr")
 
 
@@ -939,6 +951,8 @@ LIB = {
     "np.vstack": np_stack(), "np.hstack": np_stack(), "np.concatenate": np_stack(),
     "np.repeat": np_repeat,
     "time.time": lambda I, st, a, k, n: z3.Real(fresh_name("now")),
+    "np.average": lambda I, st, a, k, n: (used("np.average/np.mean: some real (pure)"), z3.Real(fresh_name("avg")))[1],
+    "np.mean": lambda I, st, a, k, n: (used("np.average/np.mean: some real (pure)"), z3.Real(fresh_name("avg")))[1],
     "np.int64": lambda I, st, a, k, n: a[0],
     "np.float64": lambda I, st, a, k, n: to_real(a[0]) if is_z3(a[0]) else float(a[0]),
     "warnings.warn": lambda I, st, a, k, n: NONE,
@@ -1036,6 +1050,8 @@ def m_append(I, st, recv, args, kw, node):
     item = args[0]
     cn = I.concrete_int(n)
     old = a.elem
+    if a.etype == "any":
+        a = Arr(a.shape, a.elem, kind=a.kind, etype=etype_of(item))
     if cn is not None:
         st.heap[recv.rid] = Arr((cn + 1,), lambda i: (item if I.concrete_int(i) == cn else
                                                       (old(i) if I.concrete_int(i) is not None else
@@ -1045,6 +1061,20 @@ def m_append(I, st, recv, args, kw, node):
         st.heap[recv.rid] = Arr((to_z3(n) + 1,), lambda i: _ite_val(to_z3(i) == to_z3(n), item, old(i)),
                                 kind="list", etype=a.etype)
     return NONE
+
+
+def etype_of(item):
+    if isinstance(item, bool) or (is_z3(item) and z3.is_bool(item)):
+        return "bool"
+    if isinstance(item, int) or (is_z3(item) and z3.is_int(item)):
+        return "int"
+    if isinstance(item, float) or (is_z3(item) and z3.is_real(item)):
+        return "real"
+    if isinstance(item, VStr):
+        return "str"
+    if isinstance(item, Opaque) and item.cls:
+        return "opaque:" + item.cls
+    return "any"
 
 
 def m_values(I, st, recv, args, kw, node):
